@@ -36,6 +36,8 @@ class Style:
         if c == 5 and v >= 1000:
             s = str(v)
             return s[:-3] + '_' + s[-3:]
+        if c == 6:
+            return '0' * (1 + self.pick(2)) + str(v)      # zero-padded decimal
         return str(v)
 
     def byte_text(self, b, quote):
